@@ -11,5 +11,5 @@ class Check(PropertyCheck):
     assumptions = ["E-funds, E-actors, E-names, E-zero-coin (DESIGN.md section 4.5)"]
 
     def families(self, rng, tier):
-        return [("world.general", fam_world.general_histories(rng, tier)), ("world.extreme", fam_world.extreme_histories(rng, tier)),
-                ("world.lp_handover", fam_world.lp_handover_histories(rng, tier))]
+        return [("world.general", fam_world.general_histories(rng.sub("general_histories"), tier)), ("world.extreme", fam_world.extreme_histories(rng.sub("extreme_histories"), tier)),
+                ("world.lp_handover", fam_world.lp_handover_histories(rng.sub("lp_handover_histories"), tier))]
